@@ -92,12 +92,50 @@ class Program:
             self.cfgs[name] = CFG(rec)
             if rec.get("parent") and rec["parent"] != name:
                 self.children[rec["parent"]].append(name)
+        self.impl_recs = {r["impl"]: r for r in getattr(facts, "impls", [])} if isinstance(getattr(facts, "impls", None), list) else \
+            dict(getattr(facts, "impls", {}) or {})
         # trait method -> local impl fns
         self.impls_of = defaultdict(list)
         for recs in facts.fns.values():
             for r in recs:
                 if r.get("trait_item"):
                     self.impls_of[r["trait_item"]].append(r["fn"])
+
+    def impl_candidates(self, name, t):
+        """In-crate impls an unresolved trait-method call may dispatch to. All impls of the method, narrowed by the call's generic arguments where they are
+        concrete: `T::from(&number)` inside `fn f<T: From<&Number>>` can only reach `From<&Number>` impls (Self is unknown, the trait's argument is not)."""
+        cal = t["callee"]
+        imps = self.impls_of[cal]
+        gargs = t.get("gargs")
+        if not gargs:
+            return imps
+        rec = self.facts.fn(name) or {}
+        par = name
+        while rec.get("generics") is None and par in self.facts.mir and self.facts.mir[par].get("parent") and self.facts.mir[par]["parent"] != par:
+            par = self.facts.mir[par]["parent"]          # closures use their parent's type parameters
+            rec = self.facts.fn(par) or {}
+        tparams = [g for g in (rec.get("generics") or []) if not g.startswith("'")] + ["Self"]
+        norm = lambda s_: re.sub(r"'\w+ ?", "", s_).replace("mut ", "").strip()
+        generic = lambda s_: any(re.search(r"(?<![\w:])%s(?![\w:])" % re.escape(g), s_) for g in tparams) or "{closure" in s_ or "impl " in s_
+        prims = {"f64", "f32", "i8", "i16", "i32", "i64", "i128", "isize", "u8", "u16", "u32", "u64", "u128", "usize", "bool", "char", "str", "dyn", "mut", "const", "fn",
+                 "for", "as", "unsafe", "extern"}
+        # printed types are fully qualified, so a bare identifier that is not a primitive is a type parameter of the impl
+
+        def has_param(s_):
+            return any(tok not in prims for tok in re.findall(r"(?<![\w:])([A-Za-z_]\w*)(?!\w|::)", s_))
+        out = []
+        for imp in imps:
+            r = self.facts.fn(imp) or {}
+            ir = self.impl_recs.get(r.get("impl"))
+            ok = True
+            if ir is not None and ir.get("targs") and len(ir["targs"]) == len(gargs):
+                for mine, theirs in zip(gargs, ir["targs"]):
+                    # the impl's own arguments may be generic too (blanket impls): only two concrete, different types exclude it
+                    if not generic(mine) and not has_param(norm(theirs)) and norm(mine) != norm(theirs):
+                        ok = False
+            if ok:
+                out.append(imp)
+        return out
 
     def callees(self, name):
         """(local callee names, external callee names, unresolved trait-method names) of one body (closures not included)."""
@@ -111,7 +149,7 @@ class Program:
             else:
                 cal = t["callee"]
                 if cal in self.impls_of:
-                    for imp in self.impls_of[cal]:
+                    for imp in self.impl_candidates(name, t):
                         loc.add(imp)
                     unres.add(cal)
                 elif t.get("local"):
@@ -125,7 +163,7 @@ class Program:
             else:
                 cal = t["callee"]
                 if cal in self.impls_of:
-                    for imp in self.impls_of[cal]:
+                    for imp in self.impl_candidates(name, t):
                         loc.add(imp)
                     unres.add(cal)
                 elif t.get("local"):
